@@ -18,6 +18,179 @@ func init() {
 	})
 }
 
+func c17Extra(c *Ctx, hd, val *ssa.Function) {
+	P := c.P
+	// ---- whole-object comparison
+	{
+		fns := []*ssa.Function{hd}
+		seen := map[*ssa.Function]bool{hd: true}
+		for i := 0; i < len(fns); i++ {
+			for _, ci := range callsIn(fns[i]) {
+				cal := staticCallee(ci.Common())
+				if cal != nil && cal.Pkg == hd.Pkg && len(cal.Blocks) > 0 && !seen[cal] {
+					seen[cal] = true
+					fns = append(fns, cal)
+				}
+			}
+		}
+		var whole func(v ssa.Value, d int) bool
+		whole = func(v ssa.Value, d int) bool {
+			if d > 6 {
+				return false
+			}
+			switch x := unwrap(v).(type) {
+			case *ssa.Extract:
+				if nx, ok := x.Tuple.(*ssa.Next); ok {
+					_ = nx
+					return x.Index == 2
+				}
+				if lk, ok := x.Tuple.(*ssa.Lookup); ok {
+					_ = lk
+					return x.Index == 0
+				}
+			case *ssa.Lookup:
+				return true
+			case *ssa.Parameter:
+				return x.Parent() != hd
+			case *ssa.Phi:
+				for _, e := range x.Edges {
+					if !whole(e, d+1) {
+						return false
+					}
+				}
+				return len(x.Edges) > 0
+			}
+			return false
+		}
+		n := 0
+		for _, f := range fns {
+			for _, ci := range callsIn(f) {
+				if calleeName(ci.Common()) != "google.golang.org/protobuf/proto.Equal" {
+					continue
+				}
+				n++
+				a, b := ci.Common().Args[0], ci.Common().Args[1]
+				c.Check(whole(a, 0) && whole(b, 0), "C17.whole-compare", fnName(f), "proto.Equal compares whole configuration elements", P.Pos(ci.Pos()), fmt.Sprintf("proto.Equal(%s, %s)", Expr(unwrap(a)), Expr(unwrap(b))))
+			}
+		}
+		c.Floor("C17.whole-compare/comparisons", n, 2)
+	}
+	// ---- Validate table
+	{
+		c.Analysed(fnName(val))
+		fReq := P.Field("proto/target", "Target", "Request")
+		fAddr := P.Field("proto/target", "Target", "Addresses")
+		if fReq == nil || fAddr == nil {
+			c.Unresolved("C17.valid-table", "proto/target.Target.Request / Addresses")
+			return
+		}
+		isRangeKey := func(v ssa.Value, idx int) bool {
+			ex, ok := v.(*ssa.Extract)
+			if !ok || ex.Index != idx {
+				return false
+			}
+			_, isNext := ex.Tuple.(*ssa.Next)
+			return isNext
+		}
+		cls := func(e *PPA, st *State, rv RV) string {
+			r := e.Resolve(st, rv)
+			switch v := r.V.(type) {
+			case *ssa.BinOp:
+				if v.Op != token.EQL && v.Op != token.NEQ {
+					return ""
+				}
+				neg := ""
+				if v.Op == token.NEQ {
+					neg = "!"
+				}
+				for _, pr := range [][2]ssa.Value{{v.X, v.Y}, {v.Y, v.X}} {
+					x := e.Resolve(st, RV{r.F, pr[0]}).V
+					if s, ok := constString(pr[1]); ok && s == "" {
+						if isRangeKey(x, 1) {
+							return neg + "NAME_EMPTY"
+						}
+						if loadOfField(x, fReq) || isCallNamed(x, "(*proto/target.Target).GetRequest") {
+							return neg + "REQ_EMPTY"
+						}
+					}
+					if isNilConst(pr[1]) && isRangeKey(x, 2) {
+						return neg + "TARGET_NIL"
+					}
+				}
+			case *ssa.Call:
+				if la, ok := lenArg(v); ok {
+					a := e.Resolve(st, RV{r.F, la}).V
+					if loadOfField(a, fAddr) || isCallNamed(a, "(*proto/target.Target).GetAddresses") {
+						return "NADDR"
+					}
+				}
+			case *ssa.Extract:
+				if lk, ok := v.Tuple.(*ssa.Lookup); ok && lk.CommaOk && v.Index == 1 {
+					return "REQ_PRESENT"
+				}
+			}
+			return ""
+		}
+		type sc struct {
+			name string
+			b    map[string]bool
+			n    int64
+			bad  bool
+		}
+		base := func() map[string]bool {
+			return map[string]bool{"NAME_EMPTY": false, "TARGET_NIL": false, "REQ_EMPTY": false, "REQ_PRESENT": true}
+		}
+		with := func(k string, v bool) map[string]bool { m := base(); m[k] = v; return m }
+		scs := []sc{
+			{"valid entry", base(), 1, false},
+			{"empty target name", with("NAME_EMPTY", true), 1, true},
+			{"nil target", with("TARGET_NIL", true), 1, true},
+			{"no address", base(), 0, true},
+			{"empty request key", with("REQ_EMPTY", true), 1, true},
+			{"request key not in the request map", with("REQ_PRESENT", false), 1, true},
+		}
+		for _, s := range scs {
+			// negated forms
+			b := map[string]bool{}
+			for k, v := range s.b {
+				b[k] = v
+				b["!"+k] = !v
+			}
+			at := &Atoms{Class: cls, Bool: b, Int: map[string]int64{"NADDR": s.n}}
+			e := &PPA{Cond: at.Cond, MaxVisits: 2, TraceBranches: true, Watch: func(ev *Ev) bool { return ev.Label == "if" }}
+			e.Run(val)
+			c.Paths += len(e.Paths)
+			c.Scen++
+			n := 0
+			for i := range e.Paths {
+				p := &e.Paths[i]
+				if p.End != "return" || len(p.Rets) != 1 {
+					continue
+				}
+				// did the path examine an entry?
+				entered := p.Has(func(ev *Ev) bool {
+					if ev.Label != "if" || !ev.Taken || len(ev.Args) == 0 {
+						return false
+					}
+					ex, ok := ev.Args[0].V.(*ssa.Extract)
+					if !ok || ex.Index != 0 {
+						return false
+					}
+					_, isNext := ex.Tuple.(*ssa.Next)
+					return isNext
+				})
+				if !entered {
+					continue
+				}
+				n++
+				isErr := retClass(p.Rets[0]) != "nil"
+				c.Check(isErr == s.bad, "C17.valid-table", fnName(val), s.name, P.Pos(val.Pos()), fmt.Sprintf("returns %s; path: %s", retClass(p.Rets[0]), p.String()))
+			}
+			c.Floor("C17.valid-table/"+s.name, n, 1)
+		}
+	}
+}
+
 func runC17(c *Ctx) {
 	P := c.P
 	Load := P.Method("target", "Config", "Load")
@@ -47,8 +220,11 @@ func runC17(c *Ctx) {
 	c.Rule("C17.revision", "checkRevision: no current configuration => nil; new revision < current => error; = => error; > => nil")
 	c.Rule("C17.classify", "handleDiffs, per iteration over the current targets: new target missing => Delete(k) only; request unchanged and proto.Equal => no handler call and k dropped from the pending set; otherwise exactly one Update{Name:k, Target:new target, Request:new configuration's request} and k dropped; second loop: exactly one Add per remaining target with the new configuration's request")
 	c.Rule("C17.readonly", "handleDiffs and Validate store nothing through either configuration; the only maps mutated are local maps made in the function; Current returns proto.Clone of the stored configuration")
+	c.Rule("C17.whole-compare", "handleDiffs (and same-package helpers it calls): every proto.Equal compares whole map elements of the two configurations (range values / map lookups), never a getter or field of them - a change in any part of a request or target must count as a change")
+	c.Rule("C17.valid-table", "Validate, per target entry: empty name, nil target, no address, empty request key, request key absent from the request map => non-nil error; none of these => the loop continues and nil is returned at the end")
 	c.Rule("C17.nil-handlers", "no handler field is invoked on a path where it is nil")
 
+	c17Extra(c, hd, val)
 	handlerOf := func(ev *Ev) *types.Var {
 		if !strings.HasPrefix(ev.Label, "call:dyn:") || ev.Fn.V == nil {
 			return nil
